@@ -305,15 +305,20 @@ func c17Case(run *evid.Run, i int) {
 				w2.Store = ps
 				var loaded *ipfslog.IPFSLog
 				var err error
+				lopts := &hx.LoadOpts{}
+				if (q+len(p.Where))%2 == 0 {
+					lopts.TimeoutMs = 600000 // a (very generous) fetch timeout must not change what is loaded
+					run.Count("crash_point_reloads_with_a_fetch_timeout", 1)
+				}
 				switch p.Kind {
 				case "manifest":
-					loaded, err = w2.LoadManifest(p.Hash, p.Ident, &hx.LoadOpts{})
+					loaded, err = w2.LoadManifest(p.Hash, p.Ident, lopts)
 				case "entry-hash":
-					loaded, err = w2.LoadHash(p.Hash, p.Ident, &hx.LoadOpts{})
+					loaded, err = w2.LoadHash(p.Hash, p.Ident, lopts)
 				case "json-heads":
-					loaded, err = w2.LoadJSON(p.JSON, p.Ident, &hx.LoadOpts{})
+					loaded, err = w2.LoadJSON(p.JSON, p.Ident, lopts)
 				case "head-entries":
-					loaded, err = w2.LoadEntries(p.Heads, p.Ident, &hx.LoadOpts{})
+					loaded, err = w2.LoadEntries(p.Heads, p.Ident, lopts)
 				}
 				run.Count("crash_point_reloads", 1)
 				d := det("kind", p.Kind, "codec", codec, "later_prefix", q > p.Prefix)
